@@ -21,6 +21,10 @@ open Wire
 open Fnum
 open Regex_wire
 
+(* bytes are small: convert without going through zarith *)
+let rec int_of_pos = function XH -> 1 | XO p -> 2 * int_of_pos p | XI p -> 2 * int_of_pos p + 1
+let int_of_z = function Z0 -> 0 | Zpos p -> int_of_pos p | Zneg p -> - (int_of_pos p)
+
 let ints_of_bytes (l : z list) : int array = Array.of_list (List.rev (List.rev_map int_of_z l))
 
 let hex_arr (a : int array) lo hi =
